@@ -259,11 +259,12 @@ def write_gro(path, rows, box, title="pvmon input"):
         fh.write("\n".join(out) + "\n")
 
 
-def write_pdb(path, rows, box, title="pvmon input"):
+def write_pdb(path, rows, box, title="pvmon input", cryst=True):
     """own PDB writer; rows carry 'ter' = True when a TER record follows the atom (end of a molecule);
     coordinates in nm with 3 decimals are exact in the 3-decimal Angstrom columns"""
-    out = ["TITLE     " + title,
-           "CRYST1%9.3f%9.3f%9.3f%7.2f%7.2f%7.2f P 1           1" % (box[0] * 10, box[1] * 10, box[2] * 10, 90, 90, 90)]
+    out = ["TITLE     " + title]
+    if cryst:
+        out.append("CRYST1%9.3f%9.3f%9.3f%7.2f%7.2f%7.2f P 1           1" % (box[0] * 10, box[1] * 10, box[2] * 10, 90, 90, 90))
     for i, r in enumerate(rows, 1):
         name = r["name"]
         out.append("ATOM  %5d %-4s %-4s%1s%4d    %8.3f%8.3f%8.3f%6.2f%6.2f" %
